@@ -41,4 +41,10 @@ CHECKS = {
                  "centre of the mesh it refines (prefix re-runs), the full connectivity script on the result, and the input object must be unchanged or "
                  "equal to the result with connectivity answers that describe its containers.",
          "design_ref": "DESIGN.md section 6 C13", "note": _NOTE, "technique": "runtime monitoring: operation-history monitor + reference analyser + connectivity differential oracle"},
+ "C06": {"text": "History + shadow-state monitor: pools of meshes from every producer (raw containers, from_arrays, loaders, all procedural generators, "
+                 "merge, copy, subdivision, boundary extraction) are driven through generated histories of copy / merge / transform / direct-edit steps; after "
+                 "every step the operated mesh must equal map(shadow) (each vertex moved exactly once by the requested map) and every other mesh must equal its "
+                 "independent float64 shadow bit for bit; copies and merges are checked for equality, disjoint-union structure and absence of shared storage; "
+                 "inverse pairs and the documented bounding box after normalising are checked.",
+         "design_ref": "DESIGN.md section 6 C06", "note": _NOTE, "technique": "runtime monitoring: operation-history monitor with shadow state and alias detection"},
 }
